@@ -155,7 +155,13 @@ def body_factory(ctx):
                 hb.wrap_K()
             xs_w = xs.copy()
             xs_w[:, 0] = np.abs(xs_w[:, 0])
-            rows_w = [dict(r, omega=float(hb["omega"][i].to_value(u.rad))) for i, r in enumerate(rows_eff)]
+            # expected independently of the table: omega + pi exactly where K was negative (so the curve is the one before)
+            rows_w = [dict(r, omega=(r["omega"] + math.pi) if xs[i, 0] < 0 else r["omega"]) for i, r in enumerate(rows_eff)]
+            om_tab = hb["omega"].to_value(u.rad)
+            for i, r in enumerate(rows_w):
+                if abs(math.remainder(float(om_tab[i]) - r["omega"], 2 * math.pi)) > 1e-9:
+                    raise Violation("wrap_K did not move omega by pi (mod 2 pi) exactly where K was negative", row=rows_eff[i],
+                                    K=float(xs[i, 0]), omega_after=float(om_tab[i]), omega_unit=str(hb["omega"].unit))
             check_rows(spec, prob, data, prob.t_ref, hb, xs_w, rows_w, "hand-built rows after wrap_K")
         # ---------------- (ii) rows returned by the sampler
         from vt.recgen import RecordingGenerator, RecordingPool
